@@ -1912,7 +1912,12 @@ hwloc_x86_component_instantiate(struct hwloc_topology *topology,
       assert(!hwloc_bitmap_iszero(set)); /* enforced by hwloc_x86_check_cpuiddump_input() */
       data->nbprocs = hwloc_bitmap_weight(set);
     } else {
-      fprintf(stderr, "hwloc/x86: Ignoring dumped cpuid directory.\n");
+      /* the caller wants to look at another machine, don't look at the native CPUID instead */
+      fprintf(stderr, "hwloc/x86: Ignoring dumped cpuid directory, disabling the x86 backend.\n");
+      hwloc_bitmap_free(set);
+      hwloc_bitmap_free(data->apicid_set);
+      free(backend);
+      goto out;
     }
     hwloc_bitmap_free(set);
   }
